@@ -408,6 +408,93 @@ def build(run):
                       sample=f"{len(first)} real MultiFunction/Transformer classes; skipped (ctor args unknown): {skipped}")
     run.add("real-algorithm-classes/used-before-registration", real, kind="values")
 
+    # ---- the public entry FUNCTIONS (they may keep algorithm objects between calls): using one before a type is registered must not change what it
+    # does to an instance of that type afterwards.  Two child processes run the same script, with / without a warm-up call before the registration.
+    def entry_functions():
+        import os
+        import pickle as _pk
+
+        def script(warm):
+            import warnings as _w
+            import ufl as _u
+            import ufl.classes as C_
+            from ufl.algorithms import (apply_algebra_lowering as _aal, apply_derivatives as _ad, expand_derivatives, expand_indices, estimate_total_polynomial_degree,
+                                        remove_complex_nodes as _rcn, renumbering as _rn, remove_component_tensors as _rct, comparison_checker as _cc, apply_restrictions as _ar,
+                                        strip_variables, replace, apply_geometry_lowering as _agl)
+            from ufv.opq import mesh as _mesh
+            from ufv import elements as _E
+            msh = _mesh("triangle")
+            Vs = _u.FunctionSpace(msh, _E.LagrangeElement(msh.ufl_cell(), 1))
+            f = _u.Coefficient(Vs)
+            funcs = {
+                "apply_geometry_lowering()": lambda e: _agl.apply_geometry_lowering(e), "apply_geometry_lowering(preserve CellVolume)": lambda e: _agl.apply_geometry_lowering(e, (C_.CellVolume,)),
+                "apply_algebra_lowering": lambda e: _aal.apply_algebra_lowering(e), "apply_derivatives": lambda e: _ad.apply_derivatives(e), "expand_derivatives": expand_derivatives,
+                "expand_indices": expand_indices, "estimate_total_polynomial_degree": estimate_total_polynomial_degree, "remove_complex_nodes": lambda e: _rcn.remove_complex_nodes(e),
+                "renumber_indices": lambda e: _rn.renumber_indices(e), "remove_component_tensors": lambda e: _rct.remove_component_tensors(e),
+                "do_comparison_check": lambda e: _cc.do_comparison_check(e), "apply_restrictions": lambda e: _ar.apply_restrictions(e), "strip_variables": strip_variables,
+                "replace({})": lambda e: replace(e, {f: f}),
+            }
+            old = [f * f + _u.sin(f), C_.Jacobian(msh)[0, 0] * f, _u.CellVolume(msh) * f]
+            if warm:
+                for fn in funcs.values():
+                    for e in old:
+                        try:
+                            with _w.catch_warnings():
+                                _w.simplefilter("ignore")
+                                fn(e)
+                        except BaseException:  # noqa: BLE001
+                            pass
+            LateJ = ufl_type()(UFLType("LateJacobianEntry", (C_.Jacobian,), {"__slots__": ()}))
+            LateN = ufl_type()(UFLType("LateFacetNormalEntry", (C_.FacetNormal,), {"__slots__": ()}))
+            LateV = ufl_type()(UFLType("LateCellVolumeEntry", (C_.CellVolume,), {"__slots__": ()}))
+            new = [LateJ(msh)[0, 1] * f, LateN(msh)[0] * f + 1, LateV(msh) * f, _u.sin(LateV(msh)) + LateJ(msh)[1, 1]]
+            out = {}
+            for nm, fn in funcs.items():
+                for k, e in enumerate(new):
+                    try:
+                        with _w.catch_warnings():
+                            _w.simplefilter("ignore")
+                            r = fn(e)
+                        out[(nm, k)] = ("ok", str(r)[:300])
+                    except BaseException as ex:  # noqa: BLE001
+                        out[(nm, k)] = ("raised", f"{type(ex).__name__}: {str(ex)[:150]}", not deliberate(ex))
+            return out
+
+        def in_child(warm):
+            r_, w_ = os.pipe()
+            pid = os.fork()
+            if pid == 0:
+                try:
+                    os.close(r_)
+                    data = _pk.dumps(script(warm))
+                    os.write(w_, len(data).to_bytes(8, "big") + data)
+                finally:
+                    os._exit(0)
+            os.close(w_)
+            buf = b""
+            while True:
+                chunk = os.read(r_, 1 << 16)
+                if not chunk:
+                    break
+                buf += chunk
+            os.close(r_)
+            os.waitpid(pid, 0)
+            if len(buf) < 8:
+                return None
+            return _pk.loads(buf[8:8 + int.from_bytes(buf[:8], "big")])
+        fresh, used = in_child(False), in_child(True)
+        if fresh is None or used is None:
+            return undecided("entry functions: a child process did not report")
+        n = 0
+        for key in fresh:
+            n += 1
+            if fresh[key][:2] != used[key][:2]:
+                return violated(f"{key[0]} applied to an instance of a type registered after its first use: {used[key][:2]}; the same call in a process that had not used "
+                                f"{key[0]} before the registration: {fresh[key][:2]}", replay={"function": key[0], "expression": key[1], "used": list(used[key][:2]), "fresh": list(fresh[key][:2])},
+                                reproduced=True, backend="exec(two processes)")
+        return proved("exec(two processes)", vcs=n, sample=f"{n} (entry function, late-type expression) pairs: the same outcome with and without a call before the registration")
+    run.add("public-entry-functions/used-before-registration", entry_functions, kind="values")
+
     # ---- bounded stand-in: exhaustive histories
     L = 6 if thorough else 4
 
